@@ -738,6 +738,10 @@ func (fr *Frame) appendOp(st *State, s, t *Val, tT types.Type) *Val {
 	}
 	newLen := Add(s.Len, n)
 	fits := Le(newLen, s.Cap)
+	var preBytes *Term
+	if b, ok := under(et).(*types.Basic); ok && b.Kind() == types.Uint8 && t.K != KStr {
+		preBytes = st.heapGet("S:byte", SArr(SInt, SArr(SInt, SInt)))
+	}
 	fresh := st.Alloc
 	st.Alloc = Add(st.Alloc, Num(1))
 	newCap := Fresh("append!cap", SInt)
@@ -781,6 +785,12 @@ func (fr *Frame) appendOp(st *State, s, t *Val, tT types.Type) *Val {
 		c.addFact(ForallPat([]*Term{m}, Implies(And(Le(Num(0), m), Lt(m, s.Len)), Eq(Select(cf, m), Select(oldC, SliceIdx(s.Off, m)))), Select(cf, m)))
 		c.addFact(ForallPat([]*Term{m}, Implies(And(Le(s.Len, m), Lt(m, Add(s.Len, n))), Eq(Select(cf, m), srcArr(l, Sub(m, s.Len)))), Select(cf, m)))
 		st.heapSet(key, Ite(fits, Store(arr, s.X, ci), Store(arr, fresh, cf)))
+	}
+	if preBytes != nil {
+		// as abstract byte strings: the result is the concatenation of the two operands
+		post := st.heapGet("S:byte", SArr(SInt, SArr(SInt, SInt)))
+		c.addFact(Eq(c.bytesVal(Select(post, resArr), resOff, newLen),
+			c.bcat(c.bytesVal(Select(preBytes, s.X), s.Off, s.Len), c.bytesVal(Select(preBytes, t.X), t.Off, t.Len))))
 	}
 	return &Val{K: KSlice, T: s.T, X: resArr, Off: resOff, Len: newLen, Cap: resCap}
 }
